@@ -28,6 +28,15 @@ pub fn make_parser(emu: &str, music: u8) -> Box<dyn BufferParser> {
             p.bs_is_ctrl_char = true;
             Box::new(p)
         }
+        "rip" => {
+            let dir = std::path::PathBuf::from(std::env::var("VERIF_SCRATCH").unwrap_or_else(|_| "/verif/work/scratch".to_string())).join("rip-files");
+            let _ = std::fs::create_dir_all(&dir);
+            Box::new(icy_engine::rip::Parser::new(Box::default(), dir))
+        }
+        "igs" => {
+            let exe: Box<dyn icy_engine::igs::CommandExecutor> = Box::<icy_engine::igs::DrawExecutor>::default();
+            Box::new(icy_engine::igs::Parser::new(Arc::new(std::sync::Mutex::new(exe))))
+        }
         "avatar" => Box::<icy_engine::avatar::Parser>::default(),
         "pcboard" => Box::<icy_engine::pcboard::Parser>::default(),
         "ctrla" => Box::<icy_engine::ctrla::Parser>::default(),
@@ -102,10 +111,17 @@ pub struct StreamObs {
     /// distinct (result kind) fingerprint bits
     pub kinds: u32,
     pub threads_timed_out: bool,
+    /// (width, height, data length) of the last get_picture_data() answer, and how many were checked
+    pub picture: Option<(i32, i32, usize)>,
+    pub pictures_checked: u64,
+    pub bad_picture: Option<(usize, i32, i32, usize)>,
+    pub next_actions: u64,
 }
 
 #[derive(Clone, Copy, Debug)]
 pub struct RunOpts {
+    /// poll get_next_action / get_picture_data after every command terminator (RIP / IGS)
+    pub graphics: bool,
     pub check_geometry: bool,
     pub budgets: Budgets,
     pub thread_budget: u64,
@@ -210,7 +226,13 @@ pub fn run_stream(case: &StreamCase, opts: RunOpts) -> (StreamObs, Option<(Buffe
     let mut resized: Option<usize> = None;
     let (mut errs, mut updates, mut sends, mut beeps, mut music, mut other, mut after_err) = (0u64, 0u64, 0u64, 0u64, 0u64, 0u64, 0u64);
     let mut kinds = 0u32;
-    let (out, m) = guarded(opts.budgets, || {
+    let total = case.total_len();
+    let mut picture = None;
+    let mut pictures_checked = 0u64;
+    let mut bad_picture = None;
+    let mut next_actions = 0u64;
+    let mut total_ticks = 0u64;
+    let (out, mut m) = guarded(opts.budgets, || {
         let mut had_err = false;
         for (i, b) in case.prefix.iter().chain(case.bytes.iter()).enumerate() {
             fed.set(i);
@@ -257,6 +279,28 @@ pub fn run_stream(case: &StreamCase, opts: RunOpts) -> (StreamObs, Option<(Buffe
             if opts.check_geometry && geo.is_none() && resized.is_none() {
                 geo = check_geometry(&case.emu, &buf, &caret, i);
             }
+            if opts.graphics && (*b == b'\n' || *b == b':' || *b == b'|' || i + 1 == total) {
+                // the work budget of a graphics stream is per command
+                total_ticks += icy_engine::verif::ticks();
+                icy_engine::verif::reset_ticks();
+                // drain pending loop steps (bounded) and look at the canvas the emulation exposes
+                for _ in 0..64 {
+                    if parser.get_next_action(&mut buf, &mut caret, 0).is_none() {
+                        break;
+                    }
+                    next_actions += 1;
+                    // every polled loop step is one command execution
+                    total_ticks += icy_engine::verif::ticks();
+                    icy_engine::verif::reset_ticks();
+                }
+                if let Some((size, data)) = parser.get_picture_data() {
+                    pictures_checked += 1;
+                    picture = Some((size.width, size.height, data.len()));
+                    if bad_picture.is_none() && (size.width < 0 || size.height < 0 || data.len() != (size.width as usize) * (size.height as usize) * 4) {
+                        bad_picture = Some((i, size.width, size.height, data.len()));
+                    }
+                }
+            }
         }
         fed.set(case.total_len());
         // decode threads belong to this case: join what is still queued
@@ -279,7 +323,12 @@ pub fn run_stream(case: &StreamCase, opts: RunOpts) -> (StreamObs, Option<(Buffe
     obs.resized_at = resized;
     obs.geo = geo;
     obs.kinds = kinds;
+    m.ticks += total_ticks;
     obs.measure = m;
+    obs.picture = picture;
+    obs.pictures_checked = pictures_checked;
+    obs.bad_picture = bad_picture;
+    obs.next_actions = next_actions;
     match out {
         Outcome::Done(()) => {
             obs.scrollback_rows = buf.get_first_visible_line();
